@@ -77,7 +77,7 @@ def plan(tier, seed):
                 yield {'base': name, 'edit': 'delete', 'at': k}
                 yield {'base': name, 'edit': 'dup', 'at': k}
             for k in range(len(toks) + 1):
-                for ins in ['1', '+', ')', '(', ',', '"s"', 'A1', '%', '=']:
+                for ins in ['1', '+', ')', '(', ',', '"s"', 'A1', '%', '=', '^', '#', '{', '@', '%d', '{0}']:      # the last six: characters and format syntax no token knows
                     yield {'base': name, 'edit': 'insert', 'at': k, 'ins': ins}
     phases.append({'name': 'corpus-edits', 'cases': edits(), 'runner': 'run_edits', 'chunk': 150})
 
